@@ -29,6 +29,10 @@ func PathValues(p protopath.Path, m proto.Message) (protopath.Values, error) {
 			v.Values = append(v.Values, cursor)
 		case protopath.FieldAccessStep:
 			if f, ok := desc.(protoreflect.FieldDescriptor); ok {
+				// A list or map holds no fields itself; its elements are reached through an index step.
+				if f.IsList() || f.IsMap() {
+					return protopath.Values{}, fmt.Errorf("%d: cursor is at repeated field %s, which must be indexed before field access", i, f.FullName())
+				}
 				desc = f.Message()
 			}
 			md, ok := desc.(protoreflect.MessageDescriptor)
